@@ -392,6 +392,8 @@ def run(ctx):
     if ctx.prop == "C12" and not getattr(ctx, "_sharing", False):
         from .common import share
         share(ctx, "C02", ("R02.3",), "R12.14", "value-selection obligations shared with C02", 2)
+        ctx.rule("R12.17", "the consistency check at the start of parse() refuses nothing but duplicate letters (R13.4 re-evaluated): every combination of greedy mode and accepted count the setters take is parsed")
+        share(ctx, "C13", ("R13.4",), "R12.17", "consistency-check obligations shared with C13", 6)
         share(ctx, "C04", ("R04.4",), "R12.14", "token-syntax obligations shared with C04", 1)
     ctx.rule("R12.16", "parse(argc, argv) passes no element of argv over (R01.14 re-evaluated): an empty or odd-looking word behind `--` is a positional like any other")
     from .common import rule_every_argument_tokenised
